@@ -45,7 +45,7 @@ func isolatedFeatureSpecs(seed int64, n int) []*spec.Spec {
 	for i := 0; i < n; i++ {
 		// every static type construct in turn, alone in a tiny program: sync and
 		// Async, as provider input / injector argument / requested type
-		o := spec.GenOpts{MaxProvs: 1 + r.Intn(3), AsyncP: []float64{0, 1.0}[(i/total)%2], ErrP: 0.3, MultiInj: 1 + (i/(2*total))%2, Files: 1, Static: true, Ext: true,
+		o := spec.GenOpts{MaxProvs: 1 + r.Intn(3), AsyncP: []float64{0, 1.0}[(i/total)%2], ErrP: 0.3, MultiInj: 1 + (i/(2*total))%2 + i%2, Files: 1 + i%2, Static: true, Ext: true,
 			Fanout: 2, ReuseP: 20, ForceRaw: 1 + i%total, NoSets: true}
 		s := spec.Generate(seed*977+int64(i)*13, fmt.Sprintf("f%04d", i), o)
 		out = append(out, s)
@@ -257,7 +257,7 @@ func CheckC04(tier string) {
 	rep.Assumptions = []string{"the user package alone compiles (checked first; a failure there is a harness bug and counts as inconclusive)", "compile errors only; vet-style diagnostics are ignored"}
 	n := tierN(tier, 220, 3000)
 	specs := dynFamily(n, base.Seed()+4000, "s", staticOpts)
-	specs = append(specs, isolatedFeatureSpecs(base.Seed()+4100, tierN(tier, 168, 840))...)
+	specs = append(specs, isolatedFeatureSpecs(base.Seed()+4100, tierN(tier, 176, 880))...)
 	specs = append(specs, dynFamily(tierN(tier, 40, 300), base.Seed()+4200, "d", defaultOpts)...)
 	specs = append(specs, corpusSpecs("C04")...)
 	sr := prepareStatic("C04", specs, false)
